@@ -76,6 +76,7 @@ def check_config(ctx, F, tag):
     c05.check_grow_fill(ctx, F, tag, prefix="C11.R4")     # the by-runs route through RawVector::resize(_, true)
     import c16
     c16.check_noop_and_flush(ctx, F, tag, prefix="C11.R3.builder")     # maximal runs: a zero-length piece does not split one; conversion flushes first
+    c16.check_set_len_extends(ctx, F, tag, rule="C11.R3.builder.set-len-without-effect-does-not-flush")   # nor does a set_len that changes nothing
     # ---------------- R1
     n = 0
     for im in F.impls_of("std::convert::From"):
